@@ -386,6 +386,9 @@ func (s *Sim) exit(g *G, p uintptr) {
 	raceOn()
 }
 
+// SUTFrames extracts the SDK frames (function names, innermost first) from a stack dump.
+func SUTFrames(stack string) []string { return sutFrames(stack) }
+
 // sutFrames extracts function names of SDK frames from a stack dump.
 func sutFrames(stack string) []string {
 	var out []string
